@@ -108,6 +108,23 @@ def gen_cases(rng, tier):
             if c >= 200:
                 state = "s"
         cases.append(_case("r%d" % i, hist, rng))
+        if i == 0:
+            # "a 2xx yields an established session" - the same session whether or not a 1xx with its To-tag came first: a 2xx carrying
+            # Session-Expires starts the session timer (refresh due 10 s before the interval ends) with or without `Supported: timer`
+            for k, se_hdr in enumerate(("Require: timer\r\nSession-Expires: 90;refresher=uac\r\n", "Supported: timer\r\nSession-Expires: 90;refresher=uac\r\n",
+                                        "Session-Expires: 120;refresher=uac\r\n", "Supported: 100rel\r\nRequire: timer\r\nSession-Expires: 90;refresher=uac\r\n")):
+                for hist2 in (["200:a"], ["180:a", "200:a"], ["100:-", "200:a"], ["183:b", "200:a"]):
+                    acts = ["0:invite"]
+                    t = 1000
+                    for h in hist2:
+                        code, tag = h.split(":")
+                        extra = "" if int(code) <= 100 else "Contact: <sip:peer-%s@10.9.9.9:5070;transport=udp>\r\n" % tag
+                        if code == "200":
+                            extra += se_hdr
+                        acts.append("%d:resp:%s:%s:%s" % (t, code, tag, hx(extra)))
+                        t += 1000
+                    acts.append("%d:wait" % (t + 200000))
+                    cases.append(["st%d-%d" % (k, len(cases)), "c13", "uac", "se=1800", ",".join(acts), "1", ",".join(hist2)])
         if i % 4 == 0:
             # the same history over a reliable (connection) transport: forks, the order of delivery and the 64*T1 the transaction stays
             # after the first 2xx do not depend on the transport
@@ -260,6 +277,15 @@ def oracle(case, impl):
             first2xx = 1000 * (orig[i] + 1)
         if g != want:
             return ["response %d (%d, To-tag %s): recipient %r, the property's case table gives %r" % (i, code, tag, g, want)]
+    if case[0].startswith("st"):
+        # the session timer of the session made from the 2xx: refresh due (interval - 10) s after the 2xx, on either path to the session
+        t2 = 1000 * len(hist)
+        se = 120 if "st2-" in case[0] else 90
+        due = [t for n, t in _tokens(impl) if n == "refresh-needed:a"]
+        if not due or due[0] != t2 + (se - 10) * 1000:
+            return ["the 2xx (Session-Expires %d, this side refreshes) arrived at %d ms %s; the session reports a refresh due at %r, expected %d" % (
+                se, t2, "after a 1xx with its To-tag" if any(h[1] == "a" and int(h[0]) < 200 for h in hist) else "as the first response with its To-tag",
+                due[:1], t2 + (se - 10) * 1000)]
     # session dialogs: identifiers from that response
     inv = re.search(r"W:INVITE_[^ ]*", impl)
     for m in re.finditer(r"(?:session|early-session):(\w+):cid=([^/]*)/ltag=([^/]*)/ptag=([^/]*)/target=([^/]*)/routes=(\S*?)@\d+", impl):
